@@ -26,6 +26,8 @@ import (
 // c04.req   method path rawpath opaque rawquery host remoteaddr header contentLength bodyLen bodySeed
 //           targetParts targetString without upRules flags
 //   out   = method scheme urlhost path rawpath opaque rawquery reqhost header contentLength body
+//   flags = comma list: transparent, buffered (two copies of the backend + try_duration: the body is buffered),
+//           lay=<naming>:<order> (how the block is written, c04_layout.go), sib=a|b (a second proxy directive after / before)
 // c04.resp  status header announced trailer bodyLen bodySeed preHeader downRules flags downRepls
 //   out   = status header trailers body
 //
@@ -307,6 +309,46 @@ func c04LayoutTags(lay string, nLines int) []string {
 	return tags
 }
 
+// A second proxy directive of the same site, written before (sib=b) or after (sib=a) the block of the case.  It serves
+// another path and has settings of its own for everything the case's block may set: none of it may reach the case's block.
+const c04Sibling = "proxy /sibling-zz http://sibling.test:9/sib?s=1 {\n without /sibling-zz\n transparent\n header_upstream X-Sibling s\n header_upstream -Accept\n" +
+	" header_upstream Cookie a b\n header_downstream X-Sibling s\n header_downstream -Etag\n header_downstream Location internal sibling\n try_duration 2s\n max_conns 3\n}\n"
+
+// c04Upstreams builds the site's proxy directives through the real setup code; the case's block is the one for "/".
+func c04Upstreams(cfg, sib string, tr http.RoundTripper) ([]proxy.Upstream, func(), string) {
+	switch sib {
+	case "":
+	case "a":
+		cfg = cfg + c04Sibling
+	case "b":
+		cfg = c04Sibling + cfg
+	default:
+		return nil, nil, "bad-case:sibling"
+	}
+	ups, err := proxy.NewStaticUpstreams(casketfile.NewDispenser("Testfile", strings.NewReader(cfg)), "")
+	stop := func() {
+		for _, u := range ups {
+			u.Stop()
+		}
+	}
+	want := 1
+	if sib != "" {
+		want = 2
+	}
+	if err != nil || len(ups) != want {
+		stop()
+		return nil, nil, fmt.Sprintf("setup-error:%v", err)
+	}
+	if tr != nil {
+		for _, u := range ups {
+			for _, h := range proxy.VerifHosts(u) {
+				h.ReverseProxy.Transport = tr
+			}
+		}
+	}
+	return ups, stop, ""
+}
+
 func c04Upstream(cfg string, tr http.RoundTripper) (proxy.Upstream, string) {
 	ups, err := proxy.NewStaticUpstreams(casketfile.NewDispenser("Testfile", strings.NewReader(cfg)), "")
 	if err != nil || len(ups) != 1 {
@@ -382,11 +424,15 @@ func c04ReqEval(f []string) (string, []string) {
 		return &http.Response{StatusCode: 200, Proto: "HTTP/1.1", ProtoMajor: 1, ProtoMinor: 1, Header: http.Header{},
 			Body: io.NopCloser(strings.NewReader("ok")), ContentLength: 2, Request: req}
 	}}
-	up, msg := c04Upstream(cfg, tr)
-	if up == nil {
+	sib := blkFlag(flags, "sib")
+	if sib != "" && strings.HasPrefix(strings.ToLower(path), "/sibling-zz") {
+		return "bad-case:the request is for the sibling block", nil
+	}
+	ups, stop, msg := c04Upstreams(cfg, sib, tr)
+	if ups == nil {
 		return msg, nil
 	}
-	defer up.Stop()
+	defer stop()
 
 	req := &http.Request{Method: method, URL: &url.URL{Path: path, RawPath: rawpath, Opaque: opaque, RawQuery: rawquery},
 		Proto: "HTTP/1.1", ProtoMajor: 1, ProtoMinor: 1, Header: c04ToHeader(hdrEntries), Host: host, RemoteAddr: remote,
@@ -400,7 +446,7 @@ func c04ReqEval(f []string) (string, []string) {
 		req.TransferEncoding = []string{"chunked"}
 	}
 	req = req.WithContext(context.Background())
-	p := proxy.Proxy{Next: httpserver.EmptyNext, Upstreams: []proxy.Upstream{up}}
+	p := proxy.Proxy{Next: httpserver.EmptyNext, Upstreams: ups}
 	rec := httptest.NewRecorder()
 	status, err := p.ServeHTTP(rec, req)
 	if seen.calls != 1 || seen.req == nil {
@@ -459,6 +505,9 @@ func c04ReqEval(f []string) (string, []string) {
 		tags = append(tags, "buffered-body")
 	}
 	tags = append(tags, c04LayoutTags(blkFlag(flags, "lay"), len(lines))...)
+	if sib != "" {
+		tags = append(tags, "second-proxy-directive")
+	}
 	if len(tags) == 0 {
 		tags = append(tags, "trivial-plain")
 	}
@@ -537,14 +586,14 @@ func c04RespEval(f []string) (string, []string) {
 		res.Body = &c04TrailerBody{r: bytes.NewReader(body), res: res, final: final}
 		return res
 	}}
-	up, msg := c04Upstream(cfg, tr)
-	if up == nil {
+	ups, stop, msg := c04Upstreams(cfg, blkFlag(f[8], "sib"), tr)
+	if ups == nil {
 		return msg, nil
 	}
-	defer up.Stop()
+	defer stop()
 	req := httptest.NewRequest("GET", "http://front.test/x", nil)
 	req.RemoteAddr = "192.0.2.7:4711"
-	p := proxy.Proxy{Next: httpserver.EmptyNext, Upstreams: []proxy.Upstream{up}}
+	p := proxy.Proxy{Next: httpserver.EmptyNext, Upstreams: ups}
 	rec := httptest.NewRecorder()
 	for _, e := range pre {
 		rec.Header()[e.k] = append([]string(nil), e.vv...)
@@ -585,6 +634,9 @@ func c04RespEval(f []string) (string, []string) {
 		}
 	}
 	tags = append(tags, c04LayoutTags(blkFlag(f[8], "lay"), len(ruleLines)+len(replLines))...)
+	if blkFlag(f[8], "sib") != "" {
+		tags = append(tags, "second-proxy-directive")
+	}
 	if len(pre) > 0 {
 		tags = append(tags, "pre-existing-headers")
 	}
@@ -865,6 +917,10 @@ func c04ReqGen(g *hx.Gen) {
 							c04EmitReq(g, "GET", rt, "front.test", "192.0.2.1:4000", plain, 0, 0, 0, target, wo, nil, "lay="+lay)
 						}
 					}
+					// a second proxy directive in the site, before / after this one
+					if qi == 0 {
+						c04EmitReq(g, "GET", rt, "front.test", "192.0.2.1:4000", plain, 0, 0, 0, target, wo, nil, "sib="+[]string{"a", "b"}[(len(base)+len(rp)+len(wo))%2])
+					}
 				}
 			}
 		}
@@ -1026,6 +1082,9 @@ func c04ReqGen(g *hx.Gen) {
 				nb = 2
 			}
 			fl = blkWithFlag(fl, "lay", c04RandLayout(r, nb))
+		}
+		if r.Chance(1, 4) {
+			fl = blkWithFlag(fl, "sib", hx.Pick(r, []string{"a", "b"}))
 		}
 		c04EmitReq(g, hx.Pick(r, c04Methods), rt, hx.Pick(r, []string{"front.test", "front.test:8080", "[::1]:2015"}), hx.Pick(r, c04Remotes[:4]),
 			hdr, cl, n, r.U64()%1000, target, hx.Pick(r, c04Withouts), c04RandRules(r, names), fl, repls...)
@@ -1227,6 +1286,9 @@ func c04RespGen(g *hx.Gen) {
 		respFlags = ""
 		if r.Chance(1, 3) {
 			respFlags = "lay=" + c04RandLayout(r, 1)
+		}
+		if r.Chance(1, 4) {
+			respFlags = blkWithFlag(respFlags, "sib", hx.Pick(r, []string{"a", "b"}))
 		}
 		emit(hx.Pick(r, statuses), hdr, announced, final, n, r.U64()%1000, pre, rules, repls...)
 	}
